@@ -157,6 +157,47 @@ class ParseSim:
                 "switch_permille": rng.choice([0, 50, 200])}
 
     # ---------------------------------------------------------------- plans
+    def many_parses_tasks(self, rng, gnames, memo_only=False):
+        """A long-lived thread: several hundred parses of one variant on one thread (counters, generation stamps and
+        pools that wrap or fill up only after hundreds or 2^16 uses)."""
+        # a long-lived thread: several hundred parses of one variant on one thread (counters, generation stamps and
+        # pools that wrap or fill up only after hundreds of uses), most of them short, a long one now and then
+        g = rng.choice(sorted(n for n in gnames if not self.grammars[n]["ctx"] and not self.grammars[n].get("max_run")
+                              and (not memo_only or any(v["mask"] for v in self.by_grammar[n]))))
+        full = max(self.by_grammar[g], key=lambda v: v["mask"])
+        v = full if rng.coin(700) else rng.choice(self.by_grammar[g])
+        q = []
+        pool_inputs = sorted({self.gen_input(rng, g) for _ in range(60)}, key=lambda x: (len(x), x))
+        short = [x for x in pool_inputs if len(x) <= 8] or [""]
+        shortest_sentences = sorted(self.grammars[g]["sentences"], key=lambda x: (len(x), x))[1:4]
+        total = rng.range(300, 620)
+        if rng.coin(500):
+            # random mix
+            for k in range(total):
+                inp = rng.choice(pool_inputs) if rng.coin(150) else rng.choice(short)
+                q.append(inp)
+        else:
+            # wrap-around probe: the longest input first, then only short inputs, and around the 254th..258th parse
+            # (where 8-bit counters and stamps wrap) inputs of strictly increasing length, so that each of them reads
+            # positions that nobody has touched since the very first parse
+            longs = pool_inputs[-8:]
+            q.append(longs[-1])
+            filler = shortest_sentences if rng.coin(700) else short
+            probes = {253 + j: longs[j] for j in range(min(6, len(longs) - 1))}
+            for k in range(1, 270):
+                q.append(probes[k] if k in probes else rng.choice(filler))
+            if rng.coin(350):
+                # the same around the 65536th parse (16-bit stamps): one filler repeated, then inputs of increasing length
+                q.append(longs[-1])
+                q.append((rng.choice(filler), 65536 - 4))
+                for j in range(min(6, len(longs) - 1)):
+                    q.append(longs[j])
+        q = [dict({"variant": v["name"], "rule": v["exported"][-1] if "long" not in self.grammars[g] else self.grammars[g]["long"].get("rule", v["exported"][0]),
+                   "input": (inp[0] if isinstance(inp, tuple) else inp), "ctx": [0, 0], "entry": rng.choice(["parse", "noop"]), "align": rng.below(8)},
+                  **({"repeat": inp[1]} if isinstance(inp, tuple) else {})) for inp in q]
+        return [q], [v["name"]]
+
+
     def plan_c20(self, i):
         rng = Rng(derive(self.seed, "c20", i))
         ntasks = rng.weighted([(2, 30), (3, 30), (4, 20), (5, 10), (6, 10)])
@@ -229,40 +270,13 @@ class ParseSim:
             vs = [v["name"]]
         many = (not deep_sim) and (not aged) and rng.coin(30)
         if many:
-            # a long-lived thread: several hundred parses of one variant on one thread (counters, generation stamps and
-            # pools that wrap or fill up only after hundreds of uses), most of them short, a long one now and then
-            g = rng.choice(sorted(n for n in gnames if not self.grammars[n]["ctx"] and not self.grammars[n].get("max_run")))
-            full = max(self.by_grammar[g], key=lambda v: v["mask"])
-            v = full if rng.coin(700) else rng.choice(self.by_grammar[g])
-            q = []
-            pool_inputs = sorted({self.gen_input(rng, g) for _ in range(60)}, key=lambda x: (len(x), x))
-            short = [x for x in pool_inputs if len(x) <= 8] or [""]
-            shortest_sentences = sorted(self.grammars[g]["sentences"], key=lambda x: (len(x), x))[1:4]
-            total = rng.range(300, 620)
-            if rng.coin(500):
-                # random mix
-                for k in range(total):
-                    inp = rng.choice(pool_inputs) if rng.coin(150) else rng.choice(short)
-                    q.append(inp)
-            else:
-                # wrap-around probe: the longest input first, then only short inputs, and around the 254th..258th parse
-                # (where 8-bit counters and stamps wrap) inputs of strictly increasing length, so that each of them reads
-                # positions that nobody has touched since the very first parse
-                longs = pool_inputs[-8:]
-                q.append(longs[-1])
-                filler = shortest_sentences if rng.coin(700) else short
-                probes = {253 + j: longs[j] for j in range(min(6, len(longs) - 1))}
-                for k in range(1, 270):
-                    q.append(probes[k] if k in probes else rng.choice(filler))
-            q = [{"variant": v["name"], "rule": v["exported"][-1] if "long" not in self.grammars[g] else self.grammars[g]["long"].get("rule", v["exported"][0]),
-                  "input": inp, "ctx": [0, 0], "entry": rng.choice(["parse", "noop"]), "align": rng.below(8)} for inp in q]
-            tasks = [q]
+            tasks, vs = self.many_parses_tasks(rng, gnames)
             ntasks = 1
-            vs = [v["name"]]
         sim_seed = rng.next()
         plan = {
             "id": i, "sim_seed": sim_seed, "entropy": sim_seed >> 1,
             "reuse_buffer": rng.coin(400), "aged": aged, "many_parses": many,
+            "env": ({"RUST_MIN_STACK": rng.choice(["131072", "262144", "1048576", "33554432"])} if rng.coin(250) else {}),
             "policy": {"kind": "random", "switch_permille": rng.choice([2, 5, 20])} if deep_sim else self.gen_policy(rng, ntasks, est, vs),
             "start_at": [0] * ntasks if (deep_sim or aged or many) else [0 if rng.coin(600) else rng.below(max(est // 2, 1)) for _ in range(ntasks)],
             "fresh_threads": rng.coin(300) and not (aged or many),
@@ -300,7 +314,11 @@ class ParseSim:
                 est += 150 if job["entry"] == "sim" else 4
                 q.append(job)
             tasks.append(q)
-        aged = "long" in self.grammars[g] and rng.coin(100)
+        many = rng.coin(30)
+        if many:
+            tasks, vs = self.many_parses_tasks(rng, sorted(self.grammars), memo_only=True)
+            ntasks = 1
+        aged = (not many) and "long" in self.grammars[g] and rng.coin(100)
         if aged:
             warm = {"variant": vs[0], "rule": self.grammars[g]["long"].get("rule", self.by_name[vs[0]]["exported"][0]), "input": self.gen_long_input(rng, g, [6000, 30000, 70000, 100000]),
                     "ctx": [0, 0], "entry": rng.choice(["parse", "noop"]), "align": rng.below(8)}
@@ -308,10 +326,10 @@ class ParseSim:
         sim_seed = rng.next()
         return {
             "id": i, "sim_seed": sim_seed, "entropy": sim_seed >> 1,
-            "reuse_buffer": rng.coin(400), "aged": aged,
+            "reuse_buffer": rng.coin(400), "aged": aged, "many_parses": many,
             "policy": self.gen_policy(rng, ntasks, est, vs),
             "start_at": [0] * ntasks,
-            "fresh_threads": rng.coin(300),
+            "fresh_threads": rng.coin(300) and not many,
             "tasks": tasks,
         }
 
@@ -650,6 +668,18 @@ def run_check(prop, tier, seed, replay_path=None):
                 full = max(memo_vs, key=lambda v: v["mask"])
                 for v in {full["name"], rng.choice(memo_vs)["name"]}:
                     jobs.append({"variant": v, "rule": ps.grammars[g]["long"].get("rule", ps.by_name[v]["exported"][0]), "input": inp, "ctx": [0, 0], "entry": "noop"})
+        # depth sweep: every nesting depth once (limits, budgets and windows that bite at one particular depth)
+        depth_jobs = 0
+        for g in sorted(ps.grammars):
+            if "deep" not in ps.grammars[g] or ps.grammars[g]["ctx"]:
+                continue
+            dp = ps.grammars[g]["deep"]
+            memo_vs = [v for v in ps.by_grammar[g] if v["mask"] != 0]
+            full = max(memo_vs, key=lambda v: v["mask"])
+            for n in range(1, dp.get("sweep_to", 300) + 1):
+                inp = dp["prefix"] + dp["open"] * n + dp["core"] + dp["close"] * n + dp["suffix"]
+                jobs.append({"variant": full["name"], "rule": full["exported"][-1], "input": inp, "ctx": [0, 0], "entry": "noop"})
+                depth_jobs += 1
         keys = []
         for j in jobs:
             twin = dict(j)
@@ -735,6 +765,7 @@ def run_check(prop, tier, seed, replay_path=None):
     if prop == "C05":
         coverage["memoize_twin_pairs_compared"] = twin_pairs
         coverage["long_input_twin_pairs_compared"] = long_pairs
+        coverage["long_input_note"] = "includes a sweep over every nesting depth 1..300 of the deep templates (all variants fully memoized, plus the twin)"
         coverage["twin_note"] = "subset x input facet: sampled on the fixed corpus only (all 2^k subsets of its memoizable rules), not searched"
     coverage["faults_fired"].pop("staggered_start_sims")
     write_evidence(prop, tier, seed, "exploration", coverage, wall, nviol, [
